@@ -1,5 +1,5 @@
 (* K7 -- model of the drivers of pyrefact/main.py:
-     format_code (159-265), _multi_run_fixes (66-156, as a straight-line list of stages),
+     format_code (wrapper) + _format_code (the pipeline), _multi_run_fixes (as a straight-line list of stages),
      format_file (268-293), format_files (296-373),
    and of the validity guards of processing._apply_rewrites (733-747) / _replace_nodes (476-495)
    in a form that is parametric in the text-level rewriting.
@@ -37,10 +37,17 @@ Variable skip_file : St -> bool.            (* re.findall("# pyrefact: skip_file
 Variable is_blank : St -> bool.             (* not source.strip() *)
 Variable valid : St -> bool.                (* core.is_valid_python *)
 Variable indent_level : St -> nat.          (* formatting.indentation_level *)
-Variable surface : Pres -> St -> Pres.      (* 189-201: preserve | defs | class_funcs | assignments *)
+Variable surface : Pres -> St -> Pres.      (* safe: preserve | defs | class_funcs | class_members | assignments *)
 
 Variable app : stage -> Pres -> St -> St.   (* what each stage does; arbitrary *)
 Variable minws : St -> St -> St.            (* minimize_whitespace_line_differences(original, source)[0] *)
+
+(* the wrapper main.format_code around main._format_code (final line break handling) *)
+Variable is_empty : St -> bool.             (* not source *)
+Variable terminated : St -> bool.           (* source[-1] in "\r\n" *)
+Variable add_nl : St -> St.                 (* source + "\n" *)
+Variable ends_lf : St -> bool.              (* formatted.endswith("\n") *)
+Variable drop_last : St -> St.              (* formatted[:-1] *)
 
 Variable n_multi : nat.                     (* number of statements of _multi_run_fixes *)
 Variable max_file_passes : nat.             (* MAX_FILE_PASSES *)
@@ -125,6 +132,23 @@ Definition model_preserve (safe : bool) (p0 : Pres) (s0 : St) : option Pres :=
   | (x, None) => None
   | (x, Some _) => Some (eff_preserve safe p0 x)
   end.
+
+(* main.format_code: a non-empty source whose last character is not a line break is formatted with
+   "\n" appended (rules may insert statements after the last line), and the line break is removed
+   from the result again; everything else goes straight to _format_code (the model above). *)
+Definition needs_nl (s : St) : bool := negb (is_empty s) && negb (terminated s).
+
+Definition format_code_outer_run (safe keep_imports : bool) (p0 : Pres) (s : St) : tstate :=
+  if needs_nl s
+  then let x := format_code_run safe keep_imports p0 (add_nl s) in
+       ((if ends_lf (fst x) then drop_last (fst x) else fst x), snd x)
+  else format_code_run safe keep_imports p0 s.
+
+Definition format_code_outer (safe keep_imports : bool) (p0 : Pres) (s : St) : St :=
+  fst (format_code_outer_run safe keep_imports p0 s).
+
+Definition outer_preserve (safe : bool) (p0 : Pres) (s : St) : option Pres :=
+  model_preserve safe p0 (if needs_nl s then add_nl s else s).
 
 (* the trace-free reading of the multi-run phase, used by the cycle-cut theorems *)
 Definition multi_fun (p : Pres) (s : St) : St :=
@@ -251,6 +275,7 @@ Record drv_case := mkDrv {
   d_overused_static : tbl; d_overused_nonstatic : tbl; d_simplify : tbl; d_align : tbl;
   d_remove_unused : tbl; d_sort : tbl; d_linelen : tbl; d_indent_t : tbl;
   d_minws : list tbl;              (* indexed by original, then by source *)
+  d_terminated : list bool; d_add_nl : tbl; d_ends_lf : list bool; d_drop_last : tbl;
   d_n_multi : nat; d_passes : nat;
   d_multi_codes : list nat;        (* code of the function called at each position of _multi_run_fixes *)
   (* observed on the implementation: *)
@@ -297,17 +322,21 @@ Definition case_app (c : drv_case) (st : stage) (p : list nat) (s : nat) : nat :
   end.
 
 Definition case_run (c : drv_case) : nat * list stage :=
-  format_code_run nat Nat.eqb (list nat)
+  format_code_outer_run nat Nat.eqb (list nat)
     (tbool (d_skip c)) (tbool (d_blank c)) (tbool (d_valid c)) (fun s => nth s (d_indent c) 0)
     (fun p s => sort_nodup (p ++ nth s (d_surface c) []))
     (case_app c) (fun o s => tapp (nth o (d_minws c) []) s)
+    (fun _ => false) (fun s => nth s (d_terminated c) true) (tapp (d_add_nl c))
+    (fun s => nth s (d_ends_lf c) true) (tapp (d_drop_last c))
     (d_n_multi c) (d_passes c) (d_safe c) (d_keep c) (sort_nodup (d_p0 c)) (d_input c).
 
 Definition case_pres (c : drv_case) : option (list nat) :=
-  model_preserve nat (list nat)
+  outer_preserve nat (list nat)
     (tbool (d_skip c)) (tbool (d_blank c)) (tbool (d_valid c)) (fun s => nth s (d_indent c) 0)
     (fun p s => sort_nodup (p ++ nth s (d_surface c) []))
-    (case_app c) (d_safe c) (sort_nodup (d_p0 c)) (d_input c).
+    (case_app c)
+    (fun _ => false) (fun s => nth s (d_terminated c) true) (tapp (d_add_nl c))
+    (d_safe c) (sort_nodup (d_p0 c)) (d_input c).
 
 (* numeric code of a stage application, as the tracing harness numbers the real calls *)
 Definition stage_code (multi_codes : list nat) (st : stage) : nat :=
